@@ -145,12 +145,14 @@ def run(rep, br, proofs, rng, tier):
     impl, _ = vlib.run_impl(lines_vm, timeout=3000)
     mvm, _ = vlib.run_model(lines_vm, timeout=3000)
     msem, _ = vlib.run_model([l.replace(" skelvm ", " skelsem ", 1) for l in lines_vm], timeout=3000)
-    fails, dis = [], []
+    fails, dis, cdiff = [], [], []
     outcomes = {}
     for c in cases:
         i, v, s = impl.get(c["id"]), mvm.get(c["id"]), msem.get(c["id"])
         c["impl"], c["model"], c["sem"] = i, v, s
         if i is None: fails.append((c, "no output")); continue
+        if v is not None and v.startswith("(compilers-differ"):
+            cdiff.append(c); continue
         if i == "(compile-error)":
             if v != "(compile-error)": dis.append(c)
             continue
@@ -160,6 +162,9 @@ def run(rep, br, proofs, rng, tier):
         if i != v: dis.append(c)
     for c, why in fails[:10]:
         rep.violation({"property": "C03", "kind": "oracle", "why": why, "case": c["line"], "impl": c["impl"], "sem": c["sem"], "model_vm": c["model"]})
+    for c in cdiff[:10]:
+        rep.violation({"property": "C03", "kind": "proof-obligation", "why": "the emit-and-patch compiler model (Skel.compile, written after compiler_nodes.go) and the declarative compiler of theorem C03_finally_once (SkelDecl.dcomp) emit different code for this skeleton: %s" % c["model"],
+                       "case": c["line"], "impl": c["impl"], "model_vm": c["model"]}, found=False)
     if not fails:
         for c in dis[:10]:
             rep.violation({"property": "C03", "kind": "correspondence", "why": "SkelVM (model of the handler machine) and implementation disagree although the implementation meets the specification on every explored skeleton",
@@ -170,6 +175,7 @@ def run(rep, br, proofs, rng, tier):
         "rule": "all skeleton statements with at most %d nodes (blocks of at most 2 statements) over exit kinds log/break/continue/return/throw/runtime-error at every position, each placed after 0-2 completed try statements, inside loops, and inside called functions; plus a seeded sample of size %d skeletons; distinct by program text; non-trivial = contains a try statement and a non-normal exit" % (maxn, maxn + 1),
         "samples": [cases[0]["line"], cases[len(cases)//2]["line"], cases[-1]["line"]],
         "exhaustive_up_to_nodes": maxn, "outcome_distribution": outcomes,
+        "compilers_compared": len(cases), "compilers_differ": len(cdiff),
         "disagreements": len(dis), "oracle_failures": len(fails)})
 
 def replay(payload, br):
